@@ -236,6 +236,16 @@ Section AreaConfig.
     a_ul : option param; a_center : option param; a_resolution : option param; a_radius : option param;
     a_units : option utok }.
 
+  (* _make_area with extent and shape: AreaDefinition.__init__ computes
+       pixel_size_x = (x1 - x0) / float(width), pixel_offset_x = -x0 / pixel_size_x (and the same for y)
+     with Python floats: a zero width / height or a zero pixel size is a ZeroDivisionError *)
+  Definition make_area (e : P4) (s : Z * Z) : outcome T :=
+    let '(e0, e1, e2, e3) := e in
+    if (fst s =? 0) || (snd s =? 0) then Raised
+    else if eqb OP (div OP (sub OP e2 e0) (ofZ OP (snd s))) zeroT || eqb OP (div OP (sub OP e3 e1) (ofZ OP (fst s))) zeroT
+         then Raised
+         else Area e s.
+
   Definition strip (p : option param) : option P2 := match p with Some (v, _) => Some v | None => None end.
 
   Definition create_area_def (a : args) : outcome T :=
@@ -268,9 +278,7 @@ Section AreaConfig.
     (* _make_area *)
     match r with
     | Err => Raised
-    | Ok (Some e, Some s, _) =>
-      (* AreaDefinition.__init__ divides the extent by width and height: ZeroDivisionError *)
-      if (fst s =? 0) || (snd s =? 0) then Raised else Area e s
+    | Ok (Some e, Some s, _) => make_area e s
     | Ok (e, s, d) => Dynamic e s d
     end.
 End AreaConfig.
